@@ -203,13 +203,19 @@ class OpenDocument:
         import odf.element
         assert(isinstance(elt, element.Element) or isinstance(elt, odf.element.Element))
 
-        self.element_dict[elt.qname].remove(elt)
+        indexed = self.element_dict.get(elt.qname)
+        if indexed is not None and elt in indexed:
+            indexed.remove(elt)
         for e in elt.childNodes:
             if e.nodeType == element.Node.ELEMENT_NODE:
                 self.remove_from_caches(e)
 
         if elt.qname == (STYLENS, u'style'):
-            del self._styles_dict[elt.getAttrNS(STYLENS, u'name')]
+            # only styles that were registered (named children of office:styles
+            # or office:automatic-styles) are in the dictionary
+            name = elt.getAttrNS(STYLENS, u'name')
+            if self._styles_dict.get(name) is elt:
+                del self._styles_dict[name]
 
     def __register_stylename(self, elt):
         '''
